@@ -779,13 +779,13 @@ def _dur(seconds, unit):
     return str(q.numerator)
 
 
-def unit_text(f, rng):
+def unit_text(f, rng, mode=None):
     """Text of ``f`` whose bounds (given in seconds) are written with unit suffixes: both ends (possibly
     different units), the same suffix, or a suffix on one end only (which then applies to both).  The
     durations are unchanged, so every oracle for the canonical text applies."""
     def pr(i):
         a, b = i
-        m = rng.choice(['both', 'same', 'end-only', 'begin-only'])
+        m = mode or rng.choice(['both', 'same', 'end-only', 'begin-only'])
         ua, ub = rng.choice(['s', 'ms', 'us']), rng.choice(['s', 'ms', 'us'])
         if Fraction(a).denominator != 1 or Fraction(b).denominator != 1:
             ua = rng.choice(['ms', 'us'])
